@@ -512,4 +512,178 @@ def runB : ByteRing → List Byte → List BOp → Option (ByteRing × List Byte
       | none => none
       | some (b'', mem'', os) => some (b'', mem'', o :: os)
 
+/-! ## `ring_for_each(n, r) BODY` as the loop the macro expands to
+
+`for (unsigned int n = (r)->tail; n != (r)->head; n = (n + 1) % (r)->size) BODY`
+with a body that reads `buffer[n]` and updates a loop-carried state `s`.
+`none` = the body read outside the buffer, or the loop was still running after
+`fuel` evaluations of the loop test (non-termination within `fuel`). -/
+def ringForEachFold {α σ : Type} (r : RingHead) (buf : List α) (f : σ → U32 → α → σ) :
+    Nat → U32 → σ → Option σ
+  | 0, _, _ => none
+  | fuel + 1, n, s =>
+    if n != r.head then
+      match buf[n.toNat]? with
+      | none => none
+      | some x => ringForEachFold r buf f fuel ((n + 1) % r.size) (f s n x)
+    else some s
+
+/-! ## igris::ring<T>: copy / move / assignment (implicitly generated members)
+and `index_of` -/
+
+/-- `std::copy(first, last, dst)` over already constructed destination elements -/
+def stdCopy {α : Type} : List α → List α → List α
+  | s :: ss, _ :: ds => s :: stdCopy ss ds
+  | _, ds => ds
+
+/-- `unbounded_array(const unbounded_array &oth) : unbounded_array(oth.data(), oth.size())`:
+`sz` value-initialised elements, then `std::copy(data, data + sz, m_data)`. -/
+def arrCopy {α : Type} (dflt : α) (src : List α) : List α :=
+  stdCopy src (List.replicate src.length dflt)
+
+namespace TRing
+variable {α : Type}
+
+/-- implicit copy constructor `ring(const ring &)`: `r(oth.r), buffer(oth.buffer)` -/
+def copy (dflt : α) (t : TRing α) : TRing α := { r := t.r, buf := arrCopy dflt t.buf }
+
+/-- implicit copy assignment: `r = oth.r; buffer = oth.buffer;` (repaired
+`unbounded_array::operator=`: release the old array, allocate `oth.size()`,
+copy-construct each element) -/
+def assign (_ : TRing α) (oth : TRing α) : TRing α := { r := oth.r, buf := oth.buf.map fun x => x }
+
+/-- implicit move constructor `ring(ring &&)`: `r` is copied (a POD),
+`unbounded_array(unbounded_array &&)` steals the storage.  Returns
+(new object, moved-from object): the moved-from ring keeps `r.size` but owns
+no storage. -/
+def move (t : TRing α) : TRing α × TRing α := ({ r := t.r, buf := t.buf }, { r := t.r, buf := [] })
+
+end TRing
+
+/-- address of `buffer.data() + i` for elements of `elem` bytes at address `base` -/
+def slotAddr (base elem i : Nat) : Nat := base + i * elem
+
+/-- `index_of(element)`: `return element - buffer.data();` (pointer difference in
+elements, converted to `int`) -/
+def indexOf (base elem p : Nat) : Int := (((p - base) / elem : Nat) : Int)
+
+/-! ## Slot lifetime of igris::ring<T> over unbounded_array<T>, as the code is
+
+Every slot of the `unbounded_array` holds bytes (`t.buf`, they persist whatever
+happens to the object) and either a living `T` object or none (`live`).  The
+three counters record the events that are harmless for a trivially destructible
+`T` and defects for a `T` that owns something:
+`overLive` — placement-new over a living object (the old object's destructor
+never runs), `deadDtor` — `~T()` on a slot without a living object (double
+destruction), `deadRead` — copy from a slot without a living object. -/
+structure LRing (α : Type) where
+  t : TRing α
+  live : List Bool
+  overLive : Nat
+  deadDtor : Nat
+  deadRead : Nat
+
+namespace LRing
+variable {α : Type}
+
+def deadCount (l : List Bool) : Nat := (l.filter fun b => !b).length
+
+/-- `ring(int bufsize)`: `unbounded_array(bufsize + 1)` constructs every element -/
+def mk' (dflt : α) (bufsize : Nat) : LRing α :=
+  { t := TRing.mk' dflt bufsize, live := List.replicate (bufsize + 1) true,
+    overLive := 0, deadDtor := 0, deadRead := 0 }
+
+/-- `push` / `emplace`: `new (buffer.data() + r.head) T(obj); ring_move_head_one(&r);` -/
+def push (l : LRing α) (x : α) : Option (LRing α) :=
+  match l.t.push x with
+  | none => none
+  | some t' =>
+    let h := l.t.r.head.toNat
+    some { l with t := t', live := l.live.set h true,
+                  overLive := l.overLive + (if l.live.getD h false then 1 else 0) }
+
+/-- `pop`: `buffer[r.tail].~T(); ring_move_tail_one(&r);` -/
+def pop (l : LRing α) : Option (LRing α) :=
+  match l.t.pop with
+  | none => none
+  | some t' =>
+    let i := l.t.r.tail.toNat
+    some { l with t := t', live := l.live.set i false,
+                  deadDtor := l.deadDtor + (if l.live.getD i false then 0 else 1) }
+
+/-- `clear()`: `while (!empty()) pop();` -/
+def clear : Nat → LRing α → Option (LRing α)
+  | 0, l => some l
+  | fuel + 1, l => if ringEmpty l.t.r then some l else
+      match pop l with
+      | none => none
+      | some l' => clear fuel l'
+
+/-- `~ring()` = `~unbounded_array()` = `invalidate()`: `~T()` on EVERY slot -/
+def destroy (l : LRing α) : LRing α :=
+  { l with deadDtor := l.deadDtor + deadCount l.live, live := l.live.map fun _ => false }
+
+/-- `resize(sz)`: `buffer.resize(sz + 1)` = `invalidate(); create_buffer(sz + 1)`, `ring_init` -/
+def resize (dflt : α) (l : LRing α) (sz : Nat) : LRing α :=
+  { l with t := TRing.resize dflt l.t sz, live := List.replicate (sz + 1) true,
+           deadDtor := l.deadDtor + deadCount l.live }
+
+/-- copy construction from `l` (then `l` itself is destroyed): `std::copy` reads
+every slot of the source, living or not; every slot of the copy lives -/
+def copyAndDrop (dflt : α) (l : LRing α) : LRing α :=
+  { t := TRing.copy dflt l.t, live := List.replicate l.t.buf.length true,
+    overLive := l.overLive, deadDtor := l.deadDtor + deadCount l.live,
+    deadRead := l.deadRead + deadCount l.live }
+
+/-- move construction from `l` (the moved-from object owns nothing and destroys nothing) -/
+def moveAndDrop (l : LRing α) : LRing α := { l with t := (TRing.move l.t).1 }
+
+/-- `tail()` read by the user: is there an object? -/
+def tailLive (l : LRing α) : Bool := l.live.getD l.t.r.tail.toNat false
+
+end LRing
+
+/-! ## ring_counter.h in `int` arithmetic with the overflow made explicit
+
+`none` = a signed addition/subtraction left `[INT_MIN, INT_MAX]` (undefined
+behaviour in C; UBSan aborts).  The unchecked functions above are these with
+the test removed. -/
+
+def inInt (x : Int) : Prop := -2147483648 ≤ x ∧ x ≤ 2147483647
+instance (x : Int) : Decidable (inInt x) := by unfold inInt; exact inferInstance
+
+/-- an `int` result: `none` when it does not fit -/
+def ckInt (x : Int) : Option Int := if inInt x then some x else none
+
+/-- `while (x >= size) x -= size;` -/
+def rcDownC (size : Int) : Nat → Int → Option Int
+  | 0, x => some x
+  | fuel + 1, x => if x ≥ size then (ckInt (x - size)).bind (rcDownC size fuel) else some x
+
+/-- `while (x < 0) x += size;` -/
+def rcUpC (size : Int) : Nat → Int → Option Int
+  | 0, x => some x
+  | fuel + 1, x => if x < 0 then (ckInt (x + size)).bind (rcUpC size fuel) else some x
+
+/-- `rc->counter += arg; ring_counter_fixup(rc);` -/
+def rcIncrementC (rc : RingCounter) (arg : Int) : Option RingCounter :=
+  (ckInt (rc.counter + arg)).bind fun c =>
+    (rcDownC rc.size c.toNat c).map fun c' => { rc with counter := c' }
+
+/-- `rc->counter = val; ring_counter_fixup(rc);` -/
+def rcSetC (rc : RingCounter) (v : Int) : Option RingCounter :=
+  (rcDownC rc.size v.toNat v).map fun c' => { rc with counter := c' }
+
+/-- `int c = rc->counter - i; while (c < 0) c += rc->size; return c;` -/
+def rcPrevC (rc : RingCounter) (i : Int) : Option Int :=
+  (ckInt (rc.counter - i)).bind fun c => rcUpC rc.size (-c).toNat c
+
+/-- `ring_counter_fixup_pos(rc, pos)` -/
+def rcFixupPosC (rc : RingCounter) (pos : Int) : Option Int :=
+  (rcDownC rc.size pos.toNat pos).bind fun p => rcUpC rc.size (-p).toNat p
+
+/-- `ring_counter_last(rc, no)`: `ring_counter_fixup_pos(rc, rc->counter - no)` -/
+def rcLastC (rc : RingCounter) (no : Int) : Option Int :=
+  (ckInt (rc.counter - no)).bind (rcFixupPosC rc)
+
 end Igris.C03
